@@ -37,7 +37,7 @@ GROUP = dict(
 '''},
              ),
         dict(id='U-shape.str_preview_mut', file='purl/src/lib.rs', fn='str_preview_mut',
-             properties=['C04', 'C05', 'C13', 'C02', 'C03', 'C09', 'C10'],
+             properties=['C04', 'C05', 'C13', 'C02', 'C03', 'C09', 'C10', 'C06'],
              contract='''    ensures
         valid_type(old(s)@) ==> r is Ok && final(s)@ == lower_ascii_seq(old(s)@),
         !valid_type(old(s)@) ==> r == Err::<(), ParseError>(ParseError::InvalidPackageType),''',
@@ -47,12 +47,12 @@ GROUP = dict(
         dict(id='U-shape.String.package_type', file='purl/src/lib.rs', fn='package_type', ctx=r'impl PurlShape for String\b',
              wrap='impl PurlShape for String', vis='', properties=['C13', 'C03']),
         dict(id='U-shape.String.finish', file='purl/src/lib.rs', fn='finish', ctx=r'impl PurlShape for String\b',
-             wrap='impl PurlShape for String', vis='', properties=['C04', 'C05', 'C13', 'C02', 'C03', 'C09', 'C10']),
+             wrap='impl PurlShape for String', vis='', properties=['C04', 'C05', 'C13', 'C02', 'C03', 'C09', 'C10', 'C06']),
         dict(id='spec.Cow', kind='raw', wrap="impl PurlShape for Cow<'_, str>", text='    type Error = ParseError;\n' + _IMPL_SPEC),
         dict(id='U-shape.Cow.package_type', file='purl/src/lib.rs', fn='package_type', ctx=r"impl PurlShape for Cow<'_, str>",
              wrap="impl PurlShape for Cow<'_, str>", vis='', properties=['C13', 'C03']),
         dict(id='U-shape.Cow.finish', file='purl/src/lib.rs', fn='finish', ctx=r"impl PurlShape for Cow<'_, str>",
-             wrap="impl PurlShape for Cow<'_, str>", vis='', properties=['C04', 'C05', 'C13', 'C02', 'C03', 'C09', 'C10'],
+             wrap="impl PurlShape for Cow<'_, str>", vis='', properties=['C04', 'C05', 'C13', 'C02', 'C03', 'C09', 'C10', 'C06'],
              rw=[('R5', '@all_any', ''),
                  ('R3', r'v\.to_ascii_lowercase\(\)', 'x_to_ascii_lowercase(v)', 1)],
              loops={0: '''
@@ -73,7 +73,7 @@ GROUP = dict(
              rw=[('R2', r'\bself\b', 'this', '+')],
              contract='    ensures r@ == this@'),
         dict(id='U-shape.SmartString.finish', file='purl/src/lib.rs', fn='finish', ctx=r'impl<M> PurlShape for SmartString<M>',
-             properties=['C04', 'C05', 'C13', 'C02', 'C03', 'C09', 'C10'],
+             properties=['C04', 'C05', 'C13', 'C02', 'C03', 'C09', 'C10', 'C06'],
              sig_rw=[('R2', r'fn finish\(&mut self, _parts: &mut PurlParts\) -> Result<\(\), Self::Error>',
                       'fn smartstring_finish(this: &mut SmallString, _parts: &mut PurlParts) -> Result<(), ParseError>', 1)],
              rw=[('R2', r'\bself\b', 'this', '+')],
